@@ -563,9 +563,6 @@ def classify(m):
     auto_distinct_on = projection and not info['ordered'] and info['explicit'] is None
     if name == 'order' and suffix == 'not-a-permutation' and auto_distinct_on: return 'order_by-drops-automatic-distinct'
     if name == 'random' and suffix == 'not-a-sample' and auto_distinct_on: return 'random-drops-automatic-distinct'
-    if name == 'count' and suffix == 'wrong-value' and isinstance(m.detail, dict) and isinstance(m.detail.get('got'), int) \
-            and m.detail['got'] < m.detail['want']:
-        if projection and (info['ordered'] or info['explicit'] is False): return 'count-scalar-query-always-count-distinct'
     if name in ('sum', 'avg') and suffix == 'wrong-value' and projection and (info['explicit'] is True or auto_distinct_on):
         return 'sum-avg-group_concat-ignore-query-distinct'
     if name == 'group_concat' and suffix == 'wrong-value' and projection and isinstance(m.detail.get('got'), str) and isinstance(m.detail.get('want'), str):
